@@ -12,6 +12,7 @@ import json
 import math
 import os
 import random
+import zlib
 
 import numpy as np
 
@@ -49,8 +50,61 @@ def _aunit(name):
 
 
 # ------------------------------------------------------------------ concretise / abstract
-def make_input(kind, lams):
-    """Spec value (kind, wavelengths in Angstrom) -> the real argument."""
+LAYOUTS = ('plain', 'readonly', 'strided', 'byteswapped', 'transposed2d')      # FluxConv!Layouts
+AB_LAYOUTS = ('plain', 'readonly', 'strided', 'byteswapped', 'fortran')         # FluxConv!ABLayouts
+
+
+def layouts_of(kind):
+    if kind in SCALAR_KINDS:
+        return ('plain',)
+    return ('plain', 'readonly', 'strided') if kind in ('qA', 'qnm', 'qum', 'qAi', 'qnmi') else LAYOUTS
+
+
+def lay(a, layout, fill=12345):
+    """The same VALUES in another memory layout (the spec's Layouts / ABLayouts)."""
+    a = np.asarray(a)
+    if layout == 'plain':
+        return a
+    if layout == 'readonly':
+        if a.size % 2:
+            return np.frombuffer(a.tobytes(), dtype=a.dtype).reshape(a.shape)
+        b = a.copy()
+        b.setflags(write=False)
+        return b
+    if layout == 'strided':
+        big = np.full(a.shape[:-1] + (2 * a.shape[-1],), fill, dtype=a.dtype)
+        big[..., ::2] = a
+        return big[..., ::2]
+    if layout == 'byteswapped':
+        return a.astype(a.dtype.newbyteorder('S'))
+    if layout == 'transposed2d':
+        return np.ascontiguousarray(np.array([a, a]).T).T
+    if layout == 'fortran':
+        return np.asfortranarray(a) if a.shape[0] % 2 else np.ascontiguousarray(a.T).T
+    raise core.MachineryError('unknown layout ' + layout)
+
+
+def make_input(kind, lams, layout='plain'):
+    """Spec value (kind, wavelengths in Angstrom, memory layout) -> the real argument."""
+    x = _make_input(kind, list(lams) + ([12345.0 if numtype(kind) != 'integer-nm' else 12340.0] * len(lams)
+                                        if layout == 'strided' and kind in ('qA', 'qnm', 'qum', 'qAi', 'qnmi') else []))
+    if layout == 'plain':
+        return x
+    if kind in SCALAR_KINDS or layout not in layouts_of(kind):
+        raise core.MachineryError('layout %s not defined for kind %s' % (layout, kind))
+    if kind in ('qA', 'qnm', 'qum', 'qAi', 'qnmi'):
+        if layout == 'readonly':
+            x.setflags(write=False)
+            return x
+        n = len(lams)
+        y = x.copy()
+        y[0::2] = x[:n]          # interleave the wanted values with the filler, then view every second element
+        y[1::2] = x[n:]
+        return y[::2]
+    return lay(x, layout)
+
+
+def _make_input(kind, lams):
     u = _u()
     if kind == 'float':
         return float(lams[0])
@@ -100,17 +154,19 @@ def native(obj):
         for n in ('A', 'nm', 'um'):
             if obj.unit == _aunit(n):
                 name = n
-        return np.atleast_1d(np.asarray(obj.value, dtype=float)).copy(), name or str(obj.unit), True, obj.ndim
-    return np.atleast_1d(np.asarray(obj, dtype=float)).copy(), 'A', False, int(np.ndim(obj))
+        return np.atleast_1d(np.asarray(obj.value, dtype=float)).ravel().copy(), name or str(obj.unit), True, obj.ndim
+    return np.atleast_1d(np.asarray(obj, dtype=float)).ravel().copy(), 'A', False, int(np.ndim(obj))
 
 
 def bits(a):
     return np.ascontiguousarray(np.asarray(a, dtype=float)).tobytes()
 
 
-def call_fn(fn, x):
+def call_fn(fn, x, rows2=False):
     """One real call.  Returns dict: raised, exc, result object, kept (input bit-identical afterwards),
-    form (as AnswerForm), vals (native floats), unit."""
+    form (as AnswerForm), vals (native floats), unit.  rows2: x is the transposed2d layout (the wavelengths twice,
+    as the two rows of a Fortran-ordered view); the answer must have that shape and two identical rows, and is
+    reduced to one row; out['layout_bad'] says if not."""
     from pydl.goddard import astro
     before, bunit, _, _ = native(x)
     bdtype = str(getattr(x, 'dtype', type(x).__name__))
@@ -136,6 +192,13 @@ def call_fn(fn, x):
         out['vals'] = [float(v) for v in vals]
         out['unit'] = unit
         out['form'] = {'quantity': bool(isq), 'unit': unit, 'scalar': ndim == 0}
+        if rows2:
+            n = len(before) // 2
+            if np.shape(r) != (2, n):
+                out['layout_bad'] = 'answer shape %r for a (2, %d) input' % (np.shape(r), n)
+            elif bits(vals[:n]) != bits(vals[n:]):
+                out['layout_bad'] = 'the two identical rows of the input got different answers'
+            out['vals'] = out['vals'][:n]
     return out
 
 
@@ -222,11 +285,13 @@ def classify(kind, cls_first, exc):
 # ------------------------------------------------------------------ spec -> code: wave cases
 def run_wave_case(c, exp, lams):
     """Execute one TLC case with concrete wavelengths; list of mismatch strings (empty = conforms)."""
-    kind, fn = c['kind'], c['fn']
-    x = make_input(kind, lams)
+    kind, fn, layout = c['kind'], c['fn'], c.get('layout', 'plain')
+    x = make_input(kind, lams, layout)
     a_native, _, _, _ = native(x)
-    o = call_fn(fn, x)
+    o = call_fn(fn, x, rows2=(layout == 'transposed2d'))
     bad = []
+    if o.get('layout_bad'):
+        bad.append(o['layout_bad'])
     if o['raised'] != exp['raises']:
         bad.append('raised %s' % o['exc'])
         return bad, o
@@ -268,7 +333,7 @@ def ab_level(form, v):
 def run_ab_case(c, exp):
     from pydl.photoop.sdssio import sdssflux2ab
     form, b, m0 = c['form'], c['band'], c['m0']
-    a = np.full((2, 5), ab_value(form, m0))
+    a = lay(np.full((2, 5), ab_value(form, m0)), c.get('layout', 'plain'), fill=1.0)
     try:
         r = sdssflux2ab(a, magnitude=(form == 'mag'), ivar=(form == 'ivar'))
     except Exception as ex:
@@ -319,19 +384,21 @@ def gen_wave_history(seed, idx):
     vals = list(lams)
     calls = []
 
-    def record(fn, kind, x, argv):
-        o = call_fn(fn, x)
+    def record(fn, kind, x, argv, layout):
+        o = call_fn(fn, x, rows2=(layout == 'transposed2d'))
         resv = []
         if not o['raised']:
             f = FACTOR.get(o['unit'])
             if f is None:
                 o['form'] = dict(o['form'], unit=o['unit'])
                 f = 1.0
+            if o.get('layout_bad'):
+                o['form'] = dict(o['form'], unit=o['layout_bad'])       # AnswerForm law rejects it
             for v in o['vals']:
                 vals.append(v * f)
                 resv.append(len(vals))
         calls.append({'fn': fn, 'kind': kind, 'arg': list(argv), 'res': resv, 'raised': o['raised'], 'kept': o['kept'],
-                      'form': o['form'], 'exc': o['exc']})
+                      'form': o['form'], 'exc': o['exc'], 'layout': layout})
         return o, resv
 
     base = list(range(1, n + 1))
@@ -344,10 +411,12 @@ def gen_wave_history(seed, idx):
             plan.append((k, base))
     for kind, argv in plan:
         for fn, back in (('airtovac', 'vactoair'), ('vactoair', 'airtovac')):
-            x = make_input(kind, [lams[v - 1] for v in argv])
-            o, resv = record(fn, kind, x, argv)
+            layout = rng.choice(layouts_of(kind))          # the same values in a seed-rotated memory layout
+            x = make_input(kind, [lams[v - 1] for v in argv], layout)
+            o, resv = record(fn, kind, x, argv, layout)
             if not o['raised'] and len(resv) == len(argv):
-                record(back, kind, o['obj'], resv)
+                # the answer object itself is handed back (for transposed2d: its 2-d answer)
+                record(back, kind, o['obj'], resv, layout if layout == 'transposed2d' else 'plain')
     nv = len(vals)
     d = [[0] * nv for _ in range(nv)]
     s = [[0] * nv for _ in range(nv)]
@@ -373,8 +442,9 @@ def gen_ab_history(seed, idx):
             a *= rng.choice([-1.0, 1.0, 1.0], (rows, 5))
     obs = []
     exc = ''
+    layout = str(rng.choice(AB_LAYOUTS))
     try:
-        r = np.asarray(sdssflux2ab(a.copy(), magnitude=(form == 'mag'), ivar=(form == 'ivar')), dtype=float)
+        r = np.asarray(sdssflux2ab(lay(a.copy(), layout, fill=1.0), magnitude=(form == 'mag'), ivar=(form == 'ivar')), dtype=float)
         if r.shape != a.shape:
             raise ValueError('shape %r' % (r.shape,))
     except Exception as ex:
@@ -395,7 +465,7 @@ def gen_ab_history(seed, idx):
             else:
                 k = int(round(m))
                 obs.append({'form': form, 'band': b + 1, 'shift': k, 'resid': min(CAP, int(math.ceil(abs(m - k) * 1e6)))})
-    return {'type': 'ab', 'gen': {'type': 'ab', 'idx': idx, 'seed': seed}, 'form': form, 'rows': rows, 'exc': exc, 'obs': obs}
+    return {'type': 'ab', 'gen': {'type': 'ab', 'idx': idx, 'seed': seed}, 'form': form, 'rows': rows, 'layout': layout, 'exc': exc, 'obs': obs}
 
 
 # ------------------------------------------------------------------ code -> spec: filter_thru histories
@@ -403,7 +473,9 @@ _SUPPORT = {}
 
 
 def band_support():
-    """[first, last] tabulated wavelength with positive response, per band (read from the data files)."""
+    """Per band the OPEN interval on which the tabulated response, linearly interpolated, is positive: from the last
+    tabulated zero before the first positive sample to the first tabulated zero after the last positive sample
+    (read from the data files the property names)."""
     if not _SUPPORT:
         for b in 'ugriz':
             t = np.loadtxt(os.path.join(FILTER_DIR, 'sdss_jun2001_%s_atm.dat' % b), comments='#')
@@ -411,7 +483,9 @@ def band_support():
             pos = np.nonzero(resp > 0)[0]
             if (resp < 0).any() or not (resp[pos[0]:pos[-1] + 1] > 0).all() or not (np.diff(lam) > 0).all():
                 raise core.MachineryError('filter curve %s: response not a positive block' % b)
-            _SUPPORT[b] = (float(lam[pos[0]]), float(lam[pos[-1]]))
+            if pos[0] == 0 or pos[-1] == len(lam) - 1:
+                raise core.MachineryError('filter curve %s: table does not end in zero response' % b)
+            _SUPPORT[b] = (float(lam[pos[0] - 1]), float(lam[pos[-1] + 1]))
     return _SUPPORT
 
 
@@ -447,7 +521,24 @@ def gen_filter_history(seed, idx):
         if rng.random() < 0.5:
             ll = ll[::-1].copy()
         wave[t] = 10.0 ** ll
+    sup = band_support()
+    sliver = []
     for t in range(0 if piecewise else nt):
+        if rng.random() < 0.5:
+            # SLIVER: the first / last pixels reach only 1..20 A into the edge of one band's response
+            bnd = 'ugriz'[int(rng.integers(0, 5))]
+            depth = float(rng.choice([1, 1, 2, 2, 3, 3, 4, 5, 7, 10, 15, 20])) * rng.uniform(0.85, 1.15)
+            step = rng.uniform(6e-5, 1.5e-4)
+            if rng.random() < 0.5:      # spectrum starts just inside the red edge and runs redward
+                ll = math.log10(sup[bnd][1] - depth) + step * pix
+                sliver.append('%s red %.1f' % (bnd, depth))
+            else:                       # spectrum ends just inside the blue edge
+                ll = math.log10(sup[bnd][0] + depth) - step * (nx - 1 - pix)
+                sliver.append('%s blue %.1f' % (bnd, depth))
+            wave[t] = 10.0 ** ll
+            if rng.random() < 0.4:
+                wave[t] = wave[t][::-1].copy()
+            continue
         lo, hi = WAVE_RANGES[int(rng.integers(0, len(WAVE_RANGES)))]
         lo *= 1.0 + 0.01 * rng.uniform(-1, 1)
         l0, l1 = math.log10(lo), math.log10(hi)
@@ -461,13 +552,15 @@ def gen_filter_history(seed, idx):
         kw['wset'] = xy2traceset(np.tile(pix, nt).reshape(nt, nx), np.log10(wave), ncoeff=3, maxiter=0)
     else:
         kw['waveimg'] = wave
-    sup = band_support()
+    # overlap (decided from the table's support): some pixel lies inside the open support, with a guard of 0.3 A
+    # at both ends; with toair the air wavelength is 0.6 .. 3.2 A smaller than the vacuum one, so the pixel must be
+    # 3.5 A inside the blue end.  Anything closer to an edge than that is not judged.
     overlap = []
     for t in range(nt):
         for b in 'ugriz':
             lo, hi = sup[b]
-            inside = ((wave[t] > lo + 8.0) & (wave[t] < hi - 8.0)).sum()
-            overlap.append(bool(inside >= 3))
+            inside = ((wave[t] > lo + (3.5 if toair else 0.3)) & (wave[t] < hi - 0.3)).sum()
+            overlap.append(bool(inside >= 1))
     # mask: runs of non-zero values, at least two good pixels per trace
     mask = np.zeros((nt, nx), dtype=np.int32)
     for t in range(nt):
@@ -543,10 +636,16 @@ def gen_filter_history(seed, idx):
         for k, f in enumerate(fl + ind):
             if (k == 4 and not masked) or (k > 4 and masked):
                 continue
-            arg = f.copy()
-            call = {'flux': k + 1, 'masked': masked, 'raised': False, 'shapeok': True, 'res': 1, 'exc': ''}
+            # the same values in seed-rotated memory layouts (flux image, wavelength image, mask)
+            lf, lw, lm = (str(v) for v in rng.choice(AB_LAYOUTS, 3))
+            arg = lay(f.copy(), lf, fill=0.0)
+            kwc = dict(kw)
+            if 'waveimg' in kwc:
+                kwc['waveimg'] = lay(wave.copy(), lw, fill=5000.0)
+            call = {'flux': k + 1, 'masked': masked, 'raised': False, 'shapeok': True, 'res': 1, 'exc': '',
+                    'layout': [lf, lw if 'waveimg' in kwc else 'wset', lm if masked else 'none']}
             try:
-                r = filter_thru(arg, mask=(mask.copy() if masked else None), **kw)
+                r = filter_thru(arg, mask=(lay(mask.copy(), lm, fill=0) if masked else None), **kwc)
                 r = np.asarray(r, dtype=float)
                 if r.shape != (nt, 5):
                     call['shapeok'] = False
@@ -578,7 +677,7 @@ def gen_filter_history(seed, idx):
                                                                   float(scale[t]) * 1e-12)
     return {'type': 'filter', 'gen': {'type': 'filter', 'idx': idx, 'seed': seed}, 'cfg': cfg, 'nt': nt, 'nx': nx, 'garbage': str(garbage),
             'nq': nq, 'overlap': overlap, 'fluxes': fluxes_meta,
-            'piecewise': bool(piecewise), 'lin': lin, 'meq': [{'x': 1, 'y': 5}],
+            'piecewise': bool(piecewise), 'sliver': sliver, 'lin': lin, 'meq': [{'x': 1, 'y': 5}],
             'calls': calls, 'combs': combs, 'd': d, 's': s}
 
 
@@ -625,7 +724,7 @@ def describe(h, law, wit):
         if h['type'] == 'wave':
             e = h['calls'][wit[0] - 1]
             arg = [h['lams'][v - 1] for v in e['arg']]
-            s = '%s(%s %s)' % (e['fn'], e['kind'], arg)
+            s = '%s(%s%s %s)' % (e['fn'], e['kind'], '' if e.get('layout', 'plain') == 'plain' else '/' + e['layout'], arg)
             if e['raised']:
                 return s + ' raised ' + e['exc']
             s += ' -> %s' % [h['lams'][v - 1] for v in e['res']]
@@ -636,10 +735,11 @@ def describe(h, law, wit):
             return s + ' instance %s' % (wit,)
         if h['type'] == 'ab':
             o = h['obs'][wit[0] - 1]
-            return 'sdssflux2ab form=%s band=%d measured shift %s milli-mag (resid %s nano-mag) %s' % (
-                o['form'], o['band'], o['shift'], o['resid'], h['exc'])
+            return 'sdssflux2ab layout=%s form=%s band=%d measured shift %s milli-mag (resid %s nano-mag) %s' % (
+                h.get('layout'), o['form'], o['band'], o['shift'], o['resid'], h['exc'])
         return 'filter_thru cfg=%s%s nt=%d nx=%d garbage=%s instance %s calls=%s' % (
-            h['cfg'], ' piecewise-sampled' if h.get('piecewise') else '', h['nt'], h['nx'], h['garbage'], wit,
+            h['cfg'], ' piecewise-sampled' if h.get('piecewise') else (' sliver ' + '/'.join(h['sliver']) if h.get('sliver') else ''),
+            h['nt'], h['nx'], h['garbage'], wit,
             [(c['flux'], c['masked'], c['exc']) for c in h['calls'] if c['exc']] or '')
     except Exception as ex:      # description only
         return 'instance %s (%s)' % (wit, ex)
@@ -687,7 +787,12 @@ def run(ctx):
                        'exact inputs, full 1e-6 A tolerance) and float32 (answers compared to the float64 answer within 8 float32 '
                        'ulps: a single-precision input cannot hold 1e-6 A at 5000 A; the answer may be float32 or float64)',
                        'nm / um callers: wavelengths within 1e-9 A of 2000 A count as "at the guard" (open in the statement)',
-                       'filter_thru: every trace keeps >= 2 unmasked pixels; laws demanded only in bands the trace overlaps; '
+                       'memory layouts (read-only via setflags / frombuffer, every-second-element views, byte-swapped, transposed '
+                       'Fortran-ordered 2-d views) are rotated by seed over array arguments of all four functions; Quantity arguments '
+                       'only read-only and strided; quick replays a seed-rotated third of the non-plain MC states',
+                       'filter_thru: every trace keeps >= 2 unmasked pixels; laws demanded only in bands the trace overlaps: some pixel '
+                       'inside the open support of the tabulated response (last tabulated zero before / first after the positive '
+                       'samples) with a 0.3 A guard (3.5 A at the blue end with toair); sliver overlaps of 1-20 A are included; '
                        'wavelength solutions: log-lambda quadratic in pixel (image or trace set), or two log-linear pieces with steps '
                        'a factor 50-200 apart (image only; a 3-coefficient trace set cannot represent them), both directions; '
                        'flux dtype float64; indicator-like fluxes (16 narrow + 2 wide windows, complements, sums) on the latter',
@@ -699,6 +804,7 @@ def run(ctx):
     nstate = 0
     raised_seen = {}
     nviol_m2 = [0]
+    skipped_layout = [0]
     for st in core.iter_states(r):
         c, exp = st['c'], st['exp']
         nstate += 1
@@ -717,8 +823,15 @@ def run(ctx):
         exp = {'raises': exp['raises'], 'form': exp['form'], 'len': exp['len'], 'precision': exp['precision'],
                'allowed': [sorted(a) for a in exp['allowed']]}
         if any(p != 'below' for p in c['pat']):
-            ctx.nontriv((c['fn'], c['kind'], tuple(c['pat'])))
-        for rep in range(reps):
+            ctx.nontriv((c['fn'], c['kind'], tuple(c['pat']), c['layout']))
+        nrep = reps
+        if c['layout'] != 'plain':
+            # same values, other memory layout: one draw; quick replays a seed-rotated third of these states
+            nrep = 1
+            if ctx.quick and (zlib.crc32(repr(sorted(c.items())).encode()) + ctx.seed) % 3:
+                skipped_layout[0] += 1
+                continue
+        for rep in range(nrep):
             lams = [class_value(rng, cls, unit_of(c['kind']) == 'A', numtype(c['kind'])) for cls in c['pat']]
             bad, o = run_wave_case(c, exp, lams)
             ctx.evaluated(2 + 2 * len(lams), 'replay-wave')
@@ -727,16 +840,18 @@ def run(ctx):
                 ctx.sample({'call': c, 'lams': lams, 'expected': exp, 'observed': {k: o[k] for k in ('raised', 'form', 'vals', 'kept')}})
             if bad:
                 f = classify(c['kind'], c['pat'][0], o['exc']) if o['raised'] else None
-                key = (c['fn'], c['kind'], tuple(c['pat']), f)
+                key = (c['fn'], c['kind'], tuple(c['pat']), c['layout'], f)
                 key2 = (c['fn'], c['kind'], f, bad[0].split()[0])
                 raised_seen[key] = raised_seen.get(key, 0) + 1
                 raised_seen[key2] = raised_seen.get(key2, 0) + 1
                 nviol_m2[0] += 1
                 if raised_seen[key] > 1 or raised_seen[key2] > 2:
                     continue          # same case / same kind and symptom: a few replay files are enough
-                ctx.violation({'what': '%s(%s %s) pattern %s: %s' % (c['fn'], c['kind'], ['%.17g' % v for v in lams],
+                ctx.violation({'what': '%s(%s/%s %s) pattern %s: %s' % (c['fn'], c['kind'], c['layout'], ['%.17g' % v for v in lams],
                                                                       c['pat'], '; '.join(bad)[:220]),
                                'call': c, 'lams': ['%.17g' % v for v in lams], 'expected': exp}, finding=f)
+    if skipped_layout[0]:
+        ctx.sample({'non_plain_layout_states_not_replayed_in_quick (seed-rotated 2/3)': skipped_layout[0]}, limit=99)
     if nviol_m2[0]:
         ctx.sample({'replayed_wave_draws_not_conforming': nviol_m2[0]}, limit=99)
     # ---- code -> spec --------------------------------------------------------------------
@@ -759,7 +874,7 @@ def run(ctx):
             if base == 0:
                 h = hs[0]
                 ctx.sample({'history': {k: v for k, v in h.items() if k not in ('d', 's')} if kind != 'filter'
-                            else {k: v for k, v in h.items() if k in ('cfg', 'nt', 'nx', 'overlap', 'calls', 'lin', 'meq')}})
+                            else {k: v for k, v in h.items() if k in ('cfg', 'nt', 'nx', 'sliver', 'overlap', 'calls', 'lin', 'meq')}})
 
     batch('wave', nwave, 400)
     batch('ab', nab, 1000)
